@@ -10,7 +10,7 @@ code under test.
 Canonical leaves:
   numbers            -> python float when exactly representable, else int
   {'__us__': n}      -> an instant, integer microseconds since the epoch
-                        (compared with 1 microsecond tolerance)
+                        (compared exactly: datetimes have microsecond resolution)
   {'__secs__': f}    -> a duration in seconds (compared to the microsecond)
 """
 import datetime
@@ -975,7 +975,8 @@ def diff(a, b, path=()):
   """List of (path, a, b) where the canonical forms differ."""
   if isinstance(a, dict) and isinstance(b, dict):
     if set(a) == {'__us__'} and set(b) == {'__us__'}:
-      return [] if abs(a['__us__'] - b['__us__']) <= 1 else [(path, a, b)]
+      # datetimes have microsecond resolution: 'preserved to the microsecond' means equal
+      return [] if a['__us__'] == b['__us__'] else [(path, a, b)]
     if set(a) == {'__secs__'} and set(b) == {'__secs__'}:
       x, y = a['__secs__'], b['__secs__']
       tol = 5e-7 + 4 * _ulp(max(abs(x), abs(y)))
@@ -1031,8 +1032,8 @@ def _align_times(a, b):
       continue
     x, y = getattr(a, fd.name), getattr(b, fd.name)
     if fd.message_type.full_name in _TIME_TYPES:
-      # 1 microsecond plus the rounding of a float64 unix timestamp (2 x 119 ns)
-      if abs((x.seconds - y.seconds) * 10 ** 9 + (x.nanos - y.nanos)) <= 1500:
+      # below half a microsecond: rounding of a float64 unix timestamp (2 x 119 ns)
+      if abs((x.seconds - y.seconds) * 10 ** 9 + (x.nanos - y.nanos)) < 500:
         y.CopyFrom(x)
     else:
       _align_times(x, y)
